@@ -64,6 +64,8 @@ def gen_lines(r, n, tier):
             line += " " + " ".join(rx)
         if i % 6 == 0:
             line += " hex=1"
+        if i % 4 == 1:
+            line += " dis=%d" % r.choice([1, 2, 3])          # some rules disabled when saved, enabled again after loading
         lines.append(line)
         info["s%d" % i] = {"case": c, "rx": rx, "strx": any(x.startswith("rx=s:") for x in rx)}
     return lines, info
@@ -176,7 +178,7 @@ def run(tier, replay=None):
                 continue
             viol("crash-during-save-load-scan", cid, d)
             continue
-        bad = [k for k in RC_KEYS if k in d and d[k] != "OK"] + [k for k in EQ_KEYS if d.get(k) != "="]
+        bad = [k for k in RC_KEYS if k in d and d[k] != "OK"] + [k for k in EQ_KEYS if d.get(k) != "="] + (["EN"] if " dis=" in byid[cid] and d.get("EN") != "=" else [])
         if "via=file" not in byid[cid] and "T" not in d:
             bad.append("T")
         if bad:
